@@ -51,6 +51,12 @@ pub fn gen_prf_in(r: &mut Rng, hashed: bool, allow_by_cred: bool) -> PrfIn {
     PrfIn { eval: r.chance(3, 4).then(|| vals(r)), by_cred }
 }
 
+/// pre-hashed inputs in which at least one part is not 32 bytes (incl. parts whose lengths add up to 32 or 64)
+fn wrong_length_pair(r: &mut Rng) -> PrfVals {
+    let (a, b): (usize, Option<usize>) = *r.pick(&[(0, None), (16, None), (31, None), (33, None), (64, None), (16, Some(16)), (40, Some(24)), (33, Some(31)), (0, Some(32)), (0, Some(64)), (32, Some(31)), (32, Some(0)), (48, Some(16)), (32, Some(64))]);
+    (r.bytes(a), b.map(|n| r.bytes(n)))
+}
+
 #[derive(Clone, Copy, Debug, PartialEq)]
 enum Malformed {
     ByCredAtRegistration,
@@ -196,8 +202,7 @@ impl Family for C09Family {
                             }
                         } else {
                             s.prf = None;
-                            let n = *r.pick(&[0usize, 31, 33, 64]);
-                            s.prf_hashed = Some(PrfIn { eval: Some((r.bytes(n), None)), by_cred: None });
+                            s.prf_hashed = Some(PrfIn { eval: Some(wrong_length_pair(&mut r)), by_cred: None });
                         }
                     }
                     OpKind::Authenticate(s) => {
@@ -229,8 +234,13 @@ impl Family for C09Family {
                             }
                             _ => {
                                 s.allow = Some(vec![IdRef::NthOfRp(0)]);
-                                let n = *r.pick(&[0usize, 16, 31, 33]);
-                                p.eval = Some((r.bytes(n), None));
+                                let bad = wrong_length_pair(&mut r);
+                                if r.chance(1, 3) {
+                                    // the wrong-length value sits in a per-credential entry
+                                    p.by_cred = Some(vec![(KeyRef::Cred(IdRef::NthOfRp(0)), bad)]);
+                                } else {
+                                    p.eval = Some(bad);
+                                }
                                 s.prf = None;
                                 s.prf_hashed = Some(p.clone());
                             }
